@@ -168,21 +168,51 @@ theorem meltQuotePlan_ok {cfg : Cfg} {msat : UInt64} {mpp : Option UInt64} {int 
       exact ⟨m, rfl, h1, by simpa using h2, by simpa using h3, h.symm⟩
     · cases h
 
-/-- Facts about an accepted melt-quote request (C16 limit; C02: the quoted amount covers the msat to be paid). -/
-structure MeltQuoteOk (cx : Cx) (qid : Nat) (h : Nat) (msat : UInt64) (mpp : Option UInt64) (s s' : DL) (q : MeltQ) : Prop where
+/-- Facts about an accepted melt-quote request (C16 limit; C02: the quoted amount covers the msat to be paid) for the
+    invoice `i` with payment hash `h`. -/
+structure MeltQuoteOk (cx : Cx) (qid : Nat) (i h : Nat) (msat : UInt64) (mpp : Option UInt64) (s s' : DL) (q : MeltQ) : Prop where
   db : s'.1 = { s.1 with meltQ := s.1.meltQ ++ [q] }
   ln : s'.2 = s.2
-  id : q.id = qid ∧ q.inv = h ∧ q.hash = h ∧ q.state = .unpaid ∧ q.preimage = 0
+  id : q.id = qid ∧ q.inv = i ∧ q.hash = h ∧ q.state = .unpaid ∧ q.preimage = 0
   nonzero : msat ≠ 0
+  /-- F16: a request that will be settled internally is the mint quote's own invoice -/
+  own : (dbGetMintQByHash s.1 h).toBool = true → i = h
   plan : meltQuotePlan cx.cfg msat mpp (dbGetMintQByHash s.1 h).toBool = .ok (q.isMpp, q.amountMsat, q.amount)
   maxMelt : ¬ (cx.cfg.maxMelt > 0 ∧ q.amount > cx.cfg.maxMelt)
   reserve : q.feeReserve = reserveFor (dbGetMintQByHash s.1 h).toBool (lnFee s.2 q.amount)
-  noOther : (dbGetMeltQByReq s.1 h).toBool = false
+  noOther : (dbGetMeltQByReq s.1 i).toBool = false
+
+theorem meltQuoteFor_cases (cx : Cx) (qid : Nat) (i h : Nat) (msatOf : Nat → UInt64) (mpp : Option UInt64)
+    (s s' : DL) (r : Except E MeltQ) (hr : runM (meltQuoteFor cx qid i h msatOf mpp) s = (s', r)) :
+    (∃ e, r = .error e ∧ s' = s) ∨
+    (∃ q, r = .ok q ∧ MeltQuoteOk cx qid i h (msatOf i) mpp s s' q) := by
+  obtain ⟨db, ln⟩ := s
+  simp only [meltQuoteFor] at hr
+  prog_simp [runM_pure] at hr
+  split at hr; · left; cases hr; exact ⟨_, rfl, rfl⟩
+  rename_i hnz
+  split at hr; · left; cases hr; exact ⟨_, rfl, rfl⟩
+  rename_i hown
+  split at hr
+  rotate_left; · left; cases hr; exact ⟨_, rfl, rfl⟩
+  rename_i plan hplan
+  split at hr; · left; cases hr; exact ⟨_, rfl, rfl⟩
+  split at hr; · left; cases hr; exact ⟨_, rfl, rfl⟩
+  split at hr; · left; cases hr; exact ⟨_, rfl, rfl⟩
+  split at hr; · left; cases hr; exact ⟨_, rfl, rfl⟩
+  rename_i hmax hex _ _
+  cases hr
+  right
+  refine ⟨_, rfl, ⟨rfl, rfl, ⟨rfl, rfl, rfl, rfl, rfl⟩, by simpa using hnz, ?_, by simpa using hplan, by simpa using hmax, rfl,
+    by simpa using hex⟩⟩
+  intro hm
+  simp only [hm, Bool.true_and, bne_iff_ne, ne_eq, Decidable.not_not] at hown
+  simpa using hown
 
 theorem requestMeltQuote_cases (cx : Cx) (qid : Nat) (inv : InvReq) (msatOf : Nat → UInt64) (unitSat : Bool) (mpp : Option UInt64)
     (s s' : DL) (r : Except E MeltQ) (hr : runM (requestMeltQuote cx qid inv msatOf unitSat mpp) s = (s', r)) :
     (∃ e, r = .error e ∧ s' = s) ∨
-    (∃ h q, inv = .inv h ∧ r = .ok q ∧ MeltQuoteOk cx qid h (msatOf h) mpp s s' q) := by
+    (∃ i h q, (inv = .inv h ∧ i = h ∨ inv = .forged i h) ∧ r = .ok q ∧ MeltQuoteOk cx qid i h (msatOf i) mpp s s' q) := by
   obtain ⟨db, ln⟩ := s
   simp only [requestMeltQuote] at hr
   prog_simp [runM_pure] at hr
@@ -191,21 +221,14 @@ theorem requestMeltQuote_cases (cx : Cx) (qid : Nat) (inv : InvReq) (msatOf : Na
   | bad => simp only [] at hr; left; cases hr; exact ⟨_, rfl, rfl⟩
   | inv h =>
     simp only [] at hr
-    prog_simp [runM_pure] at hr
-    split at hr; · left; cases hr; exact ⟨_, rfl, rfl⟩
-    rename_i _ hnz
-    split at hr
-    rotate_left; · left; cases hr; exact ⟨_, rfl, rfl⟩
-    rename_i plan hplan
-    split at hr; · left; cases hr; exact ⟨_, rfl, rfl⟩
-    split at hr; · left; cases hr; exact ⟨_, rfl, rfl⟩
-    split at hr; · left; cases hr; exact ⟨_, rfl, rfl⟩
-    split at hr; · left; cases hr; exact ⟨_, rfl, rfl⟩
-    rename_i hmax hex _ _
-    cases hr
-    right
-    exact ⟨h, _, rfl, rfl, ⟨rfl, rfl, ⟨rfl, rfl, rfl, rfl, rfl⟩, by simpa using hnz, by simpa using hplan, by simpa using hmax, rfl,
-      by simpa using hex⟩⟩
+    rcases meltQuoteFor_cases cx qid h h msatOf mpp (db, ln) s' r hr with h1 | ⟨q, h1, h2⟩
+    · exact Or.inl h1
+    · exact Or.inr ⟨h, h, q, Or.inl ⟨rfl, rfl⟩, h1, h2⟩
+  | forged f h =>
+    simp only [] at hr
+    rcases meltQuoteFor_cases cx qid f h msatOf mpp (db, ln) s' r hr with h1 | ⟨q, h1, h2⟩
+    · exact Or.inl h1
+    · exact Or.inr ⟨f, h, q, Or.inr rfl, h1, h2⟩
 
 /-- The invoice watcher after F11: it writes PAID only over UNPAID. -/
 theorem watcher_cases (qid : Nat) (s s' : DL) (r : Except E Bool) (h : runM (watcherNotified qid) s = (s', r)) :
@@ -519,7 +542,7 @@ theorem wf_meltQuote (cx : Cx) (qid : Nat) (inv : InvReq) (m : Nat → UInt64) (
     (hw : DbWf s.1) : DbWf (runM (requestMeltQuote cx qid inv m u mpp) s).1.1 := by
   apply wf_frame _ s hw
   intro s' r h
-  rcases requestMeltQuote_cases cx qid inv m u mpp s s' r h with ⟨e, _, hs⟩ | ⟨hh, q, _, _, hok⟩
+  rcases requestMeltQuote_cases cx qid inv m u mpp s s' r h with ⟨e, _, hs⟩ | ⟨ii, hh, q, _, _, hok⟩
   · rw [hs]; exact ⟨rfl, rfl⟩
   · rw [hok.db]; exact ⟨rfl, rfl⟩
 
